@@ -44,4 +44,8 @@ public:
 enum Tone { DULL, BRIGHT = 4 };
 int paint(Tone tone, int coats);
 float halve(float x);
+#include <cstdint>
+int64_t big(int64_t v);
+#include <cstddef>
+int fillTo(int v, size_t n = 3);
 #endif
